@@ -2,6 +2,7 @@ package c04
 
 import (
 	"fmt"
+	"math"
 	"sort"
 	"strings"
 	"testing"
@@ -34,8 +35,14 @@ func genKeyVal(t *rapid.T, kind int) gen.Val {
 	case 0:
 		return gen.Str(rapid.SampledFrom(gen.HostileStrings).Draw(t, "ks"))
 	case 1:
+		if rapid.IntRange(0, 5).Draw(t, "bigint") == 0 {
+			return gen.Int64(rapid.SampledFrom([]int64{1 << 53, 1<<53 + 1, 1<<53 + 2, math.MaxInt64, math.MaxInt64 - 1, math.MinInt64, -(1<<53 + 1), 4294967296, 4294967297}).Draw(t, "kbi"))
+		}
 		return gen.Int(int64(rapid.IntRange(-1, 3).Draw(t, "ki")))
 	default:
+		if rapid.IntRange(0, 5).Draw(t, "bigfloat") == 0 {
+			return gen.Float(rapid.SampledFrom([]float64{1e19, 2e19, -1e19, 9.3e18, 1e300, 2e300, 1e-300, 2e-300, 1e6, 1000001, 16777217, 0.1, 0.30000000000000004, 0.3}).Draw(t, "kbf"))
+		}
 		return gen.Float(float64(rapid.IntRange(-2, 4).Draw(t, "kf")) / 2)
 	}
 }
@@ -135,8 +142,10 @@ func tupleOf(c Case, r gen.Row) (string, []gen.Val) {
 		vals[i] = v
 		if v.IsNull() {
 			sb.WriteString("N;")
+		} else if v.K == "int" || v.K == "int64" {
+			fmt.Fprintf(&sb, "i%d;", v.I) // exact (one scalar type per column)
 		} else if f, ok := v.Num(); ok {
-			fmt.Fprintf(&sb, "n%v;", f)
+			fmt.Fprintf(&sb, "f%x;", math.Float64bits(f))
 		} else {
 			fmt.Fprintf(&sb, "s%d:%s;", len(v.S), v.S)
 		}
@@ -263,6 +272,16 @@ func runCase(c Case) (res pbt.Result) {
 				ok := false
 				if wv.IsNull() {
 					ok = g == nil
+				} else if wv.K == "int" || wv.K == "int64" {
+					switch x := g.(type) {
+					case int:
+						ok = int64(x) == wv.I
+					case int64:
+						ok = x == wv.I
+					default:
+						gf, gok := gen.ToFloat(g)
+						ok = gok && gf == float64(wv.I) && wv.I < 1<<53 && wv.I > -(1<<53)
+					}
 				} else if f, isn := wv.Num(); isn {
 					gf, gok := gen.ToFloat(g)
 					ok = gok && gf == f
